@@ -159,6 +159,57 @@ pub fn build(m: &Value, how: &str) -> Option<SourceMap> {
             for i in m["ignore"].as_array().unwrap() { b.add_to_ignore_list(i.as_u64().unwrap() as u32); }
             Some(b.into_sourcemap())
         }
+        // every entry point of the builder on ONE builder, tokens handed over in a scrambled order: `add` (strings),
+        // `add_raw` (ids) and `add_token` (a token of another map) must all end up in the one sorted map
+        "builder_mixed" => {
+            let file = opt_s(&m["file"]);
+            let mut b = SourceMapBuilder::new(file.as_deref());
+            let ss = srcs(&m["sources"]);
+            for (i, s) in ss.iter().enumerate() {
+                if b.add_source(s) != i as u32 { return None; }
+            }
+            let ns = strs(&m["names"]);
+            for (i, n) in ns.iter().enumerate() {
+                if b.add_name(n) != i as u32 { return None; }
+            }
+            let toks = raw_tokens(m);
+            let donor = build(m, "new")?;
+            let mut order: Vec<usize> = (0..toks.len()).collect();
+            let mut x: u64 = 0x9E37_79B9 ^ toks.len() as u64;
+            for t in &toks { x = x.wrapping_mul(6364136223846793005).wrapping_add(t.dst_col as u64 + 3 * t.dst_line as u64 + 1); }
+            for i in (1..order.len()).rev() {
+                x = x.wrapping_mul(6364136223846793005).wrapping_add(1442695040888963407);
+                order.swap(i, ((x >> 33) % (i as u64 + 1)) as usize);
+            }
+            for (k, &i) in order.iter().enumerate() {
+                let t = toks[i];
+                let src = if t.src_id == !0 { None } else { Some(t.src_id) };
+                let nm = if t.name_id == !0 { None } else { Some(t.name_id) };
+                x = x.wrapping_mul(6364136223846793005).wrapping_add(1442695040888963407);
+                match (x >> 33) % 4 {
+                    0 | 1 => { b.add(t.dst_line, t.dst_col, t.src_line, t.src_col, src.and_then(|i| ss.get(i as usize)).map(|s| s.as_str()),
+                                     nm.and_then(|i| ns.get(i as usize)).map(|s| s.as_str()), t.is_range); }
+                    2 => { b.add_raw(t.dst_line, t.dst_col, t.src_line, t.src_col, src, nm, t.is_range); }
+                    _ => {
+                        // the donor map holds the same tokens (sorted): find one equal to t
+                        match donor.tokens().find(|d| d.get_raw_token() == t) {
+                            Some(d) => { b.add_token(&d, true); }
+                            None => { b.add_raw(t.dst_line, t.dst_col, t.src_line, t.src_col, src, nm, t.is_range); }
+                        }
+                    }
+                }
+                let _ = k;
+            }
+            if let Some(c) = contents(m) {
+                for (i, o) in c.iter().enumerate() {
+                    if i < ss.len() { b.set_source_contents(i as u32, o.as_deref()); }
+                }
+            }
+            b.set_source_root(opt_cps(&m["root"]));
+            b.set_debug_id(debug_id(m));
+            for i in m["ignore"].as_array().unwrap() { b.add_to_ignore_list(i.as_u64().unwrap() as u32); }
+            Some(b.into_sourcemap())
+        }
         "doc" => match sourcemap::decode_slice(&write_doc(&model_doc(m))) {
             Ok(DecodedMap::Regular(sm)) => Some(sm),
             _ => None,
